@@ -203,7 +203,8 @@ def probe(kind, p, pilot, occupied, entry):
             return False, before == after and before[2] is after[2], evse.current_pilot, "InvalidRateError", evse
         except Exception as exc:
             guard(exc)
-            return False, False, evse.current_pilot, type(exc).__name__, evse
+            after = (evse.current_pilot, ev_state(ev), evse.ev)
+            return False, before == after and before[2] is after[2], evse.current_pilot, type(exc).__name__, evse
     else:
         net = ChargingNetwork()
         first = EVSE("PS-0", max_rate=32)
@@ -230,7 +231,8 @@ def probe(kind, p, pilot, occupied, entry):
             return False, before == after and before[2] is after[2], evse.current_pilot, "InvalidRateError", evse
         except Exception as exc:
             guard(exc)
-            return False, False, evse.current_pilot, type(exc).__name__, evse
+            after = (evse.current_pilot, ev_state(ev), evse.ev)
+            return False, before == after and before[2] is after[2], evse.current_pilot, type(exc).__name__, evse
 
 
 def advertised(kind, p, mode="direct"):
@@ -371,9 +373,9 @@ def execute(item, only=None):
                 if abs(evse.ev.current_charging_rate - want_rate) > 1e-9:
                     rep("%s:accepted-pilot-not-charged" % kind, "%s: accepted pilot %r, occupant charged at %r" % (cfg, pilot, evse.ev.current_charging_rate), evse.ev.current_charging_rate, want_rate, pr)
         else:
-            if exc != "InvalidRateError":
+            if exc != "InvalidRateError" and math.isfinite(pilot):
                 rep("%s:wrong-exception:%s" % (kind, exc), "%s: rejected pilot %r raised %s, not InvalidRateError" % (cfg, pilot, exc), exc, "InvalidRateError", pr)
-            elif not untouched:
+            elif not untouched:  # (a pilot that is not a number may be refused with whatever error; it must still change nothing)
                 rep("%s:rejection-changed-state:%s" % (kind, side), "%s %s: rejected pilot %r altered the station's pilot / the EV's energy or battery (pilot now %r)" % (cfg, side, pilot, after), after, None, pr)
     # ---- a rejected pilot AFTER an accepted one must keep the accepted one --------
     if only is None or only.get("seq"):
